@@ -303,7 +303,7 @@ def _c16(tier, seed):
     pairs = [(k, k) for k in range(20) if q is False or k not in (6, 16, 17, 18)] + [(k, j) for k in (2, 4, 19) for j in (2, 3, 4, 7, 19) if k != j]
     if not q:
         pairs += [(k, j) for k in range(20) for j in (2, 4, 19) if (k, j) not in pairs] + [(j, k) for k in range(20) for j in (2, 4, 19) if (j, k) not in pairs]
-    runs += ["H_C16_sequence(%d,%d)" % p for p in pairs] + ["H_C16_repeated()", "H_C16_reconnect()"] + ["H_C16_names_client_message(%d)" % k for k in range(8)] + ["H_C16_after_key_exchange(%d)" % k for k in range(4)]
+    runs += ["H_C16_sequence(%d,%d)" % p for p in pairs] + ["H_C16_repeated()", "H_C16_reconnect()"] + ["H_C16_names_client_message(%d)" % k for k in range(8)] + ["H_C16_after_key_exchange(%d)" % k for k in range(4)] + ["H_C16_reconnect_outstanding(%d)" % k for k in range(4)]
     return [dict(name="loop", pkg=".", harness=NET_HARNESS + ["harness/root/c16.go", "harness/root/c16k.go"], runs=runs, solver="z3", walllimit=600, timeout=3000, replay="schedule",
                  crash_tags=["process-survives"], validate_runs=["H_C16_message(0,1)", "H_C16_message(2,1)", "H_C16_message(9,1)"], veclen=100)]
 
